@@ -13,14 +13,15 @@
    situation finds a larger size (`s_risky`, `s_clean` = no such reopen); multiapp's SetOffset
    into an earlier chunk leaves the later chunk FILES, which a ReadAt running past the end of the
    current chunk walks into and which Open takes as current (`m_risky`, `m_clean`).
-   Not in the models: compression, Copy, failing OS calls, handle-cache eviction, concurrency. *)
+   Not in the models: compression, failing OS calls, handle-cache eviction, concurrency. *)
 From V Require Import App.Spec App.Single App.SingleProofs App.SingleSim.
 From V Require Import App.Multi App.MultiProofs App.MultiRead App.MultiSim.
 
 (* singleapp: for EVERY operation sequence and every valid option combination (buffer size,
    retryableSync, autoSync incl. the ErrBufferFull mode, preallocation, read-only reopen), as long
-   as no reopen happens while the file is longer than fileOffset, every returned offset / byte
-   string / size / error class equals the byte array's *)
+   as no reopen happens — and no Copy is made — while the file is longer than fileOffset, every
+   returned offset / byte string / size / error class / copy content equals the byte array's
+   (the result of Copy is everything a read-only Open of the copied file holds) *)
 Theorem C17_single_refines_log_partial : forall p meta o ops,
   opts_valid o = true ->
   s_clean (s_create p meta o) ops = true ->
@@ -28,11 +29,14 @@ Theorem C17_single_refines_log_partial : forall p meta o ops,
 Proof. exact single_refines_log_partial. Qed.
 Print Assumptions C17_single_refines_log_partial.
 
-(* in particular, within one session (any sequence without a reopen) the refinement is unconditional:
-   rewinds below the flushed size, stale tails and preallocation included *)
+(* within one session (any sequence without a reopen, Copy included anywhere) the refinement needs no
+   premise: rewinds below the flushed size, stale tails and preallocation included, every output
+   equals the byte array's, and a Copy changes nothing that is observable afterwards.  Only the
+   CONTENT of a copy made while the file holds bytes beyond the current offset may carry those bytes
+   behind the byte array (`out_match_c`: impl = OCopy (bs ++ t) where the specification has OCopy bs) *)
 Theorem C17_single_refines_log_session : forall p meta o ops,
   opts_valid o = true -> no_reopen ops = true ->
-  Forall2 out_match (s_run (s_create p meta o) ops) (spec_run (log_init (zeros p) meta o) ops).
+  Forall2 out_match_c (s_run (s_create p meta o) ops) (spec_run (log_init (zeros p) meta o) ops).
 Proof. exact single_refines_log_session. Qed.
 Print Assumptions C17_single_refines_log_session.
 
@@ -93,9 +97,9 @@ Print Assumptions C17_single_buffer_indices_in_range.
 (* multiapp: for EVERY operation sequence, every chunk size > 0 (appends spanning any number of
    chunks), buffer size, flush-when-full or retryableSync+autoSync, preallocation, read-only reopen:
    as long as no step observes stale chunk files (`m_clean`: no ReadAt running past the end of the
-   current chunk while chunk files beyond the current one exist; no reopen while such files exist
-   or the current chunk file is longer than its fileOffset), every output equals the byte
-   array's.  (`nocap`: not retryableSync without autoSync, see trusted_base.) *)
+   current chunk while chunk files beyond the current one exist; no reopen and no Copy while such
+   files exist or the current chunk file is longer than its offset), every output — also the full
+   content of a Copy opened read-only — equals the byte array's.  (`nocap`: not retryableSync without autoSync, see trusted_base.) *)
 Theorem C17_multi_refines_log_partial : forall fs pre meta o ops,
   0 < fs -> opts_valid o = true -> nocap o = true -> ops_nocap ops = true ->
   m_clean (m_create fs pre meta o) ops = true ->
